@@ -301,7 +301,7 @@ func CheckMain(args []string) int {
 				}
 			}
 			// generation shares Program caches (locked); solving runs in parallel
-			g := houdiniLocked(p, u.fn, mode, opts, stats, &mu)
+			g := HoudiniLocked(p, u.fn, mode, opts, stats, &mu)
 			res := &unitResult{g: g}
 			for _, o := range g.Obls {
 				for _, r := range u.rules {
@@ -436,7 +436,7 @@ func CheckMain(args []string) int {
 	return exit
 }
 
-func houdiniLocked(p *Program, fn *ssa.Function, mode GenMode, opts SolveOpts, stats *SolverStats, mu *sync.Mutex) *Gen {
+func HoudiniLocked(p *Program, fn *ssa.Function, mode GenMode, opts SolveOpts, stats *SolverStats, mu *sync.Mutex) *Gen {
 	dropped := map[string]bool{}
 	var g *Gen
 	for round := 0; round < 6; round++ {
